@@ -41,7 +41,7 @@ TR = 'chainables.transform'
 
 
 def run(ctx: Ctx):
-  for r in (r1, r2, r3, r4, r5, r6, r9, r11, r12, r13, r14):
+  for r in (r1, r2, r3, r4, r5, r6, r9, r11, r12, r13, r14, r15):
     ctx.guard(r)
   from mlmverif.props import c09
   ctx.include('R-C12-10', 'error skipping configured on a data source survives a'
@@ -754,6 +754,84 @@ def r14(ctx: Ctx):
   ctx.floor(rule, 1)
 
 
+def r15(ctx: Ctx):
+  rule = 'R-C12-15'
+  ctx.rule(rule, '"the first error reaches the caller ..., iteration stops, sinks are'
+           ' closed and helper threads end": in the __next__ of the pipeline iterators'
+           ' (MultiplexIterator, _RunnerIterator, _ChainedRunnerIterator) every call'
+           ' that advances or feeds the pipeline — next(...), <x>.update_state(...) —'
+           ' has ALL its exceptional continuations (other than a handler for'
+           ' StopIteration only) pass `self.maybe_stop()` before the exception leaves'
+           ' the method; `super().__next__()` is delegated to the base, which is'
+           ' checked itself. And maybe_stop reaches an in-process stage as well: it'
+           ' calls close() on the iterator it draws from when that is not Stoppable'
+           ' (a suspended generator keeps its sink open). Otherwise a failure that'
+           ' happens outside the protected call (the aggregate update, a downstream'
+           ' stage) leaves the producer threads blocked in put() for ever and the'
+           ' sinks open')
+  repo = ctx.repo
+  n = 0
+  targets = [repo.func(IU, 'MultiplexIterator.__next__'), repo.func(TR, '_RunnerIterator.__next__'),
+             repo.func(TR, '_ChainedRunnerIterator.__next__')]
+  for fi in targets:
+    g = cfgm.cfg_of(fi.node)
+
+    def feeding_call(nd):
+      for x in cfgm.node_exprs(nd):
+        if isinstance(x, ast.Call):
+          f = unparse(x.func)
+          if f == 'next' or (isinstance(x.func, ast.Attribute) and x.func.attr == 'update_state'):
+            return x
+      return None
+
+    def stops(nd):
+      return any(isinstance(x, ast.Call) and unparse(x.func) == 'self.maybe_stop' for x in cfgm.node_exprs(nd))
+
+    def explicit(a, b, lab):
+      return lab != 'close' and (lab != 'exc' or isinstance(a.ast, ast.Raise))
+
+    calls = [nd for nd in g.nodes if nd.kind in ('stmt', 'cond') and feeding_call(nd) is not None]
+    delegated = any(isinstance(x, ast.Call) and unparse(x.func) == 'super().__next__' for x in ast.walk(fi.node))
+    if not calls and not delegated:
+      raise AnalysisError(f'{rule}: {fi.qualname} neither draws from an iterator nor delegates to its base')
+    for nd in calls:
+      n += 1
+      c = feeding_call(nd)
+      why = None
+      for h, lab in nd.succ:
+        if lab != 'exc':
+          continue
+        if h is g.exit_exc:
+          why = 'no handler covers it'
+          continue
+        if h.exc_types and set(h.exc_types) <= {'StopIteration', 'StopAsyncIteration'}:
+          continue
+        if g.must_pass(h, [g.exit_exc], stops, explicit) is not None:
+          why = f'the handler `{h.text()}` re-raises without stopping'
+      if why:
+        ctx.fail(rule, fi, f'{fi.qualname}: a failure of `{unparse(c.func)}(...)` stops the pipeline before it is raised',
+                 f'`{unparse(c)[:60]}` can raise, and {why}: the error reaches the caller but'
+                 ' self.maybe_stop() is not called on that way out — the producer threads of this'
+                 ' (and of the upstream) stages stay blocked in put() and the sinks stay open',
+                 node=nd.ast)
+      else:
+        ctx.ok(rule, fi, f'{fi.qualname}: failure of {unparse(c.func)}(...) passes maybe_stop()', nd.ast)
+  ms = repo.func(IU, 'MultiplexIterator.maybe_stop')
+  nx = repo.func(IU, 'MultiplexIterator.__next__')
+  drawn = {unparse(x.args[0]) for x in ast.walk(nx.node) if isinstance(x, ast.Call) and unparse(x.func) == 'next' and x.args}
+  closes = {unparse(x.func.value) for x in ast.walk(ms.node) if isinstance(x, ast.Call) and isinstance(
+      x.func, ast.Attribute) and x.func.attr == 'close'}
+  n += 1
+  if drawn and drawn <= closes:
+    ctx.ok(rule, ms, f'maybe_stop closes an in-process {sorted(drawn)[0]}', ms.node)
+  else:
+    ctx.fail(rule, ms, 'MultiplexIterator.maybe_stop closes an in-process (not Stoppable) iterator',
+             f'maybe_stop never calls close() on {sorted(drawn) or "the iterator"}: with num_threads=0 the'
+             ' stage generator stays suspended after a failure outside it and its sink is never closed',
+             node=ms.node)
+  ctx.floor(rule, 4, n)
+
+
 def r5(ctx: Ctx):
   rule = 'R-C12-5'
   ctx.rule(rule, 'causes: every `raise X(...)` lexically inside an `except ...'
@@ -809,6 +887,21 @@ from mlmverif.selfcheck import B, OK  # noqa: E402
 _F = 'chainables/tree_fns.py'
 _U = 'utils/iter_utils.py'
 VARIANTS = [
+    B('revert-aggregate-failure-stops-pipeline', 'chainables/transform.py',
+      '        except Exception:\n          # The iteration cannot go on: ends the worker threads and closes the\n          # stages (e.g., a sink) as when drawing the next batch fails.\n          self.maybe_stop()\n          raise',
+      '        except Exception:\n          raise', 'R-C12-15'),
+    B('revert-chain-failure-stops-upstream', 'chainables/transform.py',
+      '    except Exception:\n      # A failing stage only stops itself, the upstream stages have to be\n      # stopped as well.\n      self.maybe_stop()\n      raise',
+      '    except Exception:\n      raise', 'R-C12-15'),
+    B('revert-maybe-stop-closes-generator', 'utils/iter_utils.py',
+      '    elif hasattr(self._iterator, \'close\'):\n      # An in-process generator is suspended, close it to run its clean-ups.\n      self._iterator.close()\n',
+      '', 'R-C12-15'),
+    B('multiplex-next-error-without-stop', 'utils/iter_utils.py',
+      "      logging.exception('chainable: %s', f'error iterating \"{self.name}\".')\n      self.maybe_stop()\n      raise",
+      "      logging.exception('chainable: %s', f'error iterating \"{self.name}\".')\n      raise", 'R-C12-15'),
+    OK('aggregate-failure-stop-in-finally-flag', 'chainables/transform.py',
+       '        except Exception:\n          # The iteration cannot go on: ends the worker threads and closes the\n          # stages (e.g., a sink) as when drawing the next batch fails.\n          self.maybe_stop()\n          raise',
+       '        except Exception as agg_error:\n          self.maybe_stop()\n          raise agg_error'),
     B('identity-fn-bypasses-skipping-map', 'chainables/tree_fns.py',
       '    map_ = iter_utils.map_ignore_error if ignore_error else map\n    fn_outputs = map_(self._maybe_call_fn, fn_inputs)',
       '    if self.fn is _identity_fn:\n      fn_outputs = fn_inputs\n    else:\n      map_ = iter_utils.map_ignore_error if ignore_error else map\n      fn_outputs = map_(self._maybe_call_fn, fn_inputs)',
